@@ -491,10 +491,23 @@ def _cli(prog, chk, R):
         fr = [s for s in loops if s['k'] == 'forrange' and any(x is n for x in SX.walk(s['range']))]
         if not outer or not fr:
             continue
-        adds = [x for x in SX.walk(fr[0]['body']) if (lambda w: w and w[2] == '+=' and SX.show(w[1]).endswith('.second'))(SX.write_target(x))]
-        full = not any(x['k'] in ('break', 'continue', 'return') for x in SX.walk(fr[0]['body']))
+        def part(e, var, which):
+            # `.first` / `.second` of a loop's element, or the structured binding at that position (`for (const auto& [name, counts] : …)`)
+            e = SX.strip(e)
+            if not (SX.is_node(e) and SX.is_node(var)):
+                return False
+            if e.get('k') == 'member' and e.get('name') == ('first', 'second')[which] and SX.is_node(SX.strip(e.get('base'))) and SX.strip(e['base']).get('id') == var.get('id'):
+                return True
+            b = var.get('bindings') or []
+            return e.get('k') == 'ref' and len(b) == 2 and e.get('id') == b[which].get('id')
         inner = [x for x in SX.walk(fr[0]['body']) if x['k'] == 'forrange']
-        keyed = adds and 'first' in SX.show(SX.write_target(adds[0])[0])
+        adds = [x for x in SX.walk(fr[0]['body']) if (lambda w: w and w[2] == '+=' and inner and part(w[1], inner[0].get('var'), 1))(SX.write_target(x))]
+        full = not any(x['k'] in ('break', 'continue', 'return') for x in SX.walk(fr[0]['body']))
+        keyed = False
+        if adds and inner:
+            tgt = SX.strip(SX.write_target(adds[0])[0])
+            keyed = SX.is_node(tgt) and tgt.get('k') == 'index' and part(tgt.get('i'), inner[0].get('var'), 0) and SX.is_node(SX.strip(tgt.get('base'))) \
+                and SX.strip(tgt['base']).get('k') == 'index' and part(SX.strip(tgt['base']).get('i'), fr[0].get('var'), 0) and part(inner[0].get('range'), fr[0].get('var'), 1)
         ok = bool(adds) and full and len(inner) == 1 and bool(keyed)
         g = prog.cfg(f)
         ex = [c for c in g.calls(lambda e: e['k'] == 'mcall' and SX.short(e['callee']) == 'execute')]
